@@ -175,6 +175,15 @@ def compact_inputs(rng):
     res0 = s.cell_to_children(0, 0)
     f0 = s.cell_to_children(res0[0], 1)
     f8 = s.cell_to_children(res0[8], 1)
+    yield [0]
+    yield [0, res0[3]]
+    yield [0, 0]
+    for face in (res0[1], res0[5], res0[8], res0[11]):
+        segs = s.cell_to_children(face, 1)
+        yield segs
+        yield list(reversed(segs)) + [res0[0]]
+        yield s.cell_to_children(face, 2)
+        yield segs[:4] + s.cell_to_children(segs[4], 2)
     yield res0
     yield f0 + res0[1:]
     yield f0
